@@ -366,12 +366,24 @@ func dupCorpus(b int) []tcase {
 		{Note: "dup: directory then file at one path, the file first in another order", Pkgs: []pkg{
 			{Name: "a", Origin: "a", Files: with(usr, d("usr/bin/x", 0o755), f("usr/bin/x/y", "Y", 0o644), d("usr/bin/x", 0o700))}}},
 	}
-	if b != bTarfs {
-		// tarfs reads a package-backed file's bytes by NAME from the package's own index
-		// (the last entry of that name): see probeReadByName (finding C07-F17)
-		cs = append(cs, tcase{Note: "dup: file, hard link to it, the file again with other bytes", Pkgs: []pkg{
-			{Name: "a", Origin: "a", Files: with(usr, f("usr/bin/x", "X", 0o755), l("usr/bin/lx", "usr/bin/x", 0o755), f("usr/bin/x", "YY", 0o700))}}})
-	}
+	// tarfs reads a package-backed file's bytes by NAME from the package's own index (the
+	// last entry of that name): finding C07-F17, Model/InstallRead.v, probeReadByName
+	cs = append(cs,
+		tcase{Note: "dup: file, hard link to it, the file again with other bytes", Pkgs: []pkg{
+			{Name: "a", Origin: "a", Files: with(usr, f("usr/bin/x", "X", 0o755), l("usr/bin/lx", "usr/bin/x", 0o755), f("usr/bin/x", "YY", 0o700))}}},
+		tcase{Note: "dup: file, hard link to it, the path again as a dangling link", Pkgs: []pkg{
+			{Name: "a", Origin: "a", Files: with(usr, f("usr/bin/x", "X", 0o755), l("usr/bin/lx", "usr/bin/x", 0o755), s("usr/bin/x", "nowhere"))}}},
+		tcase{Note: "dup: file, hard link to it, the path again as a link to another file of the package", Pkgs: []pkg{
+			{Name: "a", Origin: "a", Files: with(usr, f("usr/bin/y", "Y", 0o644), f("usr/bin/x", "X", 0o755), l("usr/bin/lx", "usr/bin/x", 0o755), l("usr/bin/lx2", "usr/bin/lx", 0o755), s("usr/bin/x", "../bin/y"))}}},
+		tcase{Note: "dup: a package that replaces itself ships a file twice", Pkgs: []pkg{
+			{Name: "a", Origin: "a", Replaces: []string{"a"}, Files: with(usr, f("usr/bin/x", "X", 0o755), f("usr/bin/x", "YY", 0o700))}}},
+		tcase{Note: "dup: file whose bytes are the target string of the link that follows at the same path", Pkgs: []pkg{
+			{Name: "a", Origin: "a", Files: with(usr, f("usr/bin/x", "y", 0o755), s("usr/bin/x", "y"))}}},
+		tcase{Note: "dup: the install fails between the two copies", Pkgs: []pkg{
+			{Name: "a", Origin: "a", Files: with(usr, f("usr/bin/x", "X", 0o755), f("usr/nodir/z", "Z", 0o644), f("usr/bin/x", "YY", 0o700))}}},
+		tcase{Note: "dup: empty file, hard link to it, the file again with bytes", Pkgs: []pkg{
+			{Name: "a", Origin: "a", Files: with(usr, f("usr/bin/x", "", 0o755), l("usr/bin/lx", "usr/bin/x", 0o755), f("usr/bin/x", "YY", 0o700))}}},
+	)
 	for i := range cs {
 		cs[i].Backend = b
 	}
@@ -678,14 +690,6 @@ func genCase(r *gal.Rand, b int) tcase {
 		p.Files = append(p.Files, items...)
 		if dupy && len(items) > 0 && r.Chance(2, 3) {
 			it := items[r.Intn(len(items))]
-			for _, x := range items {
-				if x.Kind == kLink && x.Link == it.Path {
-					// the name of a hard-linked file is not shipped again by the same package:
-					// tarfs reads bytes by NAME from the package's index (finding C07-F17,
-					// replayed by probeReadByName; not in the model)
-					it.Kind = kLink
-				}
-			}
 			switch {
 			case it.Kind == kReg:
 				switch r.Intn(5) {
@@ -832,7 +836,8 @@ var harnessFailures int
 // usr/bin/x again ("YY"): the link's name must still show "X" (it is another name of the
 // FIRST node), usr/bin/x must show "YY". tarfs reads a package-backed node's bytes by the
 // entry's NAME from the package's own index, which keeps the LAST entry of a name: the
-// link shows "YY" (finding C07-F17). Also: a package that lists itself in replaces keeps
+// link shows "YY" (finding C07-F17; modelled in Model/InstallRead.v, the same cases are in
+// dupCorpus; this probe judges the BYTES directly). Also: a package that lists itself in replaces keeps
 // its first copy (mode 0755) whose bytes then read as the second copy's.
 func probeReadByName(b int) {
 	usr := []hdr{d("usr", 0o755), d("usr/bin", 0o755)}
